@@ -1085,6 +1085,12 @@ func (repo *Repository) Save(ctx context.Context) error {
 	repo.Lock()
 	defer repo.Unlock()
 
+	// The main branch files can only be written from a branch that goes back to the oldest header,
+	// so consolidate the longest branch first in case it is currently a child branch.
+	if err := repo.consolidate(ctx); err != nil {
+		return errors.Wrap(err, "consolidate")
+	}
+
 	if err := repo.saveMainBranch(ctx); err != nil {
 		return errors.Wrap(err, "main branch")
 	}
